@@ -50,7 +50,7 @@ BornFn(S) == [e \in S |-> "live"] @@ life
 GAInit ==
     /\ life = <<>> /\ pool = <<>> /\ loose = {} /\ owed = <<>>
     /\ op = NoOp /\ heap = <<>>
-    /\ cfg = [mode |-> "strict", ety |-> "tk"]
+    /\ cfg = [mode |-> "strict", ety |-> "tk", rec |-> FALSE]
 
 (* f is a function  id -> scope  of elements the library becomes obliged to
    drop.  For element types without a destructor nothing is observable, so
@@ -162,7 +162,7 @@ NewOp(c, srcs, kinds) ==
      srcs |-> srcs, kinds |-> kinds, n |-> c.n, okind |-> c.okind,
      k |-> 0, out |-> <<>>, acc |-> 0, phase |-> "idle", cmap |-> <<>>,
      polls |-> 0, got |-> <<>>, gdropped |-> {}, sawNone |-> FALSE, hints |-> <<>>, truthful |-> c.truthful,
-     fl |-> {}, allocs |-> 0, cur |-> <<>>,
+     fl |-> {}, allocs |-> 0, cur |-> <<>>, spare |-> c.spare,
      blks |-> [i \in DOMAIN c.recv |-> pool[c.recv[i]].blk]]
 
 IsCbOp(name) == name \in CbOps
@@ -249,7 +249,8 @@ RetPlain(r) ==
             /\ (pool[o.h].kind = "iter" => o.len = Len(pool[o.h].items) /\ o.lo = o.len /\ o.hi = o.len)
        /\ (op.name = "debug" => r.dbg = r.dbgref)
        \* O(1) conversions hand over the same heap block and never call the allocator (C15)
-       /\ (op.name \in {"into_boxed_slice", "into_vec", "try_from_boxed_slice", "box_into_iter"} /\ ~e.err =>
+       /\ (cfg.rec /\ ~e.err /\ (op.name \in {"into_boxed_slice", "into_vec", "try_from_boxed_slice", "box_into_iter"}
+                                   \/ (op.name = "try_from_vec" /\ ~op.spare)) =>
              /\ op.allocs = 0
              /\ r.outs[1].blk = op.blks[1])
     /\ op' = NoOp
